@@ -28,7 +28,7 @@ Fixpoint clookup (c : list (string * msym)) (n : string) : option msym :=
 Inductive rres :=
 | RTarget (module name : string) (is_class : bool)
 | RNone                                 (* returns None: the call contributes only itself *)
-| RImportError                          (* raise ImportError: nobody catches it *)
+| RImportError                          (* raise ImportError: caught by make_target_ir_call_tree, reported, no expansion *)
 | RFuel.                                (* the recursion did not end within the fuel *)
 
 Section Imports.
@@ -44,14 +44,17 @@ Section Imports.
   (* target.name.replace(f"{module}.", "").removesuffix("()") *)
   Definition local_name (tname mn : string) : string := remove_suffix "()" (replace_all (mn ++ ".") "" tname).
 
-  Fixpoint resolve_import (fuel : nat) (irs : list modl) (tname tqual : string) : rres :=
+  (* visited: the qualified names of the import symbols already followed on this path (a name re-exported in
+     a cycle is reported and resolves to nothing) *)
+  Fixpoint resolve_import (fuel : nat) (irs : list modl) (visited : list string) (tname tqual : string) : rres :=
     match fuel with
     | 0 => RFuel
     | S f =>
       match module_of tqual with
       | None => RImportError
       | Some mn =>
-        if blacklisted mn then RNone
+        if mem tqual visited then RNone
+        else if blacklisted mn then RNone
         else if negb follow_local then RNone
         else if negb follow_pip && in_pip mn then RNone
         else if negb follow_stdlib && in_stdlib mn then RNone
@@ -62,7 +65,7 @@ Section Imports.
                match clookup (m_ctx m) ln with
                | Some MFunc => if mem ln (m_ir m) then RTarget mn ln false else RNone
                | Some MClass => if mem ln (m_ir m) then RTarget mn ln true else RNone
-               | Some (MImport n q) => resolve_import f irs n q
+               | Some (MImport n q) => resolve_import f irs (tqual :: visited) n q
                | _ => RNone
                end
              end
@@ -71,6 +74,7 @@ Section Imports.
 
   (* ---------- the BFS ---------- *)
   Variable imports_in : string -> list (string * string).   (* origin -> Import symbols (name, qualified) of its root context *)
+  Variable has_source : string -> bool.                      (* the origin is an existing .py file (not an extension / frozen / built-in module) *)
 
   Fixpoint bfs (fuel : nat) (queue : list (string * string)) (seen : list string) (acc : list (string * string))
     : option (list (string * string)) :=              (* analysed (module name, origin), in order *)
@@ -88,6 +92,7 @@ Section Imports.
           | Some o =>
             if mem o seen then bfs f rest seen acc
             else if negb (permitted mn) then bfs f rest seen acc
+            else if negb (has_source o) then bfs f rest seen acc        (* reported, not analysed, not marked as seen *)
             else bfs f (rest ++ imports_in o) (o :: seen) ((mn, o) :: acc)
           end
         end
@@ -106,7 +111,7 @@ Section Imports.
     | Some (mkSym nm KFunc) => Some (mkSym (qid owner nm) KFunc)
     | Some (mkSym nm KClass) => Some (mkSym (qid owner nm) KClass)
     | Some (mkSym nm (KImport q)) =>
-      match resolve_import fuel irs nm q with
+      match resolve_import fuel irs [] nm q with
       | RTarget mn ln false => Some (mkSym (qid mn ln) KFunc)
       | RTarget mn ln true => Some (mkSym (qid mn ln) KClass)
       | _ => Some (mkSym nm KName)
@@ -120,11 +125,12 @@ Section Imports.
   Definition link_entry (fuel : nat) (irs : list modl) (owner : string) (e : fentry) : fentry :=
     mkF (qid owner (fe_id e)) (fe_kind e) (fe_iface e) (map (link_call fuel irs owner) (fe_calls e)).
 
-  (* any call of any module that the resolver cannot finish or that raises *)
-  Definition call_raises (fuel : nat) (irs : list modl) (c : callrec) : bool :=
+  (* a call the resolver cannot finish (an ImportError raised by the resolver is caught by the tree builder and
+     reported: the call then contributes only itself) *)
+  Definition call_diverges (fuel : nat) (irs : list modl) (c : callrec) : bool :=
     match c_target c with
     | Some (mkSym nm (KImport q)) =>
-      match resolve_import fuel irs nm q with RImportError | RFuel => true | _ => false end
+      match resolve_import fuel irs [] nm q with RFuel => true | _ => false end
     | _ => false
     end.
 End Imports.
